@@ -5,10 +5,12 @@ From WB Require Import Async.AbiBuf Async.AbiBufProofs Async.StreamOp Async.Stre
 Import ListNotations.
 Local Open Scope N_scope.
 
-Ltac rsimp :=
-  unfold remit, rset_done, radd_rep, rset_host, radd_taken, radd_log, radd_got, radd_dropped, rset_fut,
-         rset_ad, rset_vec, rset_ans, rset_alive, rclear in *;
-  cbn [r_alive r_done r_fut r_ad r_vec r_busy r_inbuf r_ev r_taken r_log r_got r_dropped r_rep r_lg r_ans r_out] in *.
+(** [rcbv]: to be used after the state record has been destructed (projections of a variable would
+    otherwise be unfolded into matches). *)
+Ltac rcbv :=
+  cbv beta iota delta [remit rset_done radd_rep rset_host radd_taken radd_log radd_got radd_dropped rset_fut
+         rset_ad rset_vec rset_ans rset_alive rclear
+         r_alive r_done r_fut r_ad r_vec r_busy r_inbuf r_ev r_taken r_log r_got r_dropped r_rep r_lg r_ans r_out] in *.
 
 Inductive rcfg := RCNone | RCOp (o : rop).
 
@@ -178,9 +180,9 @@ Proof.
     assert (HR' : Forall (fun p : N * N => fst p = snd p)
                     (r_rep r ++ [(N.of_nat (length (r_inbuf r)), sres_count s)])).
     { apply Forall_app; split; [exact HR|]. constructor; [|constructor]. cbn. rewrite Hcnt. reflexivity. }
-    destruct sd; rsimp;
+    clear E. destruct r. destruct sd; rcbv;
       (do 4 (split; [reflexivity|]);
-       unfold RDone, RBase, rquiet; rsimp;
+       unfold RDone, RBase, rquiet; rcbv;
        split; [|split; [exact Hbusy|split; [exact Hev|reflexivity]]];
        split; [rewrite app_nil_r; exact HL|];
        split; [rewrite Hi; apply perm_into_vec; exact HP|];
@@ -217,6 +219,59 @@ Proof.
   destruct mv as [|x mv]; [reflexivity|]. cbn. unfold lg_add. cbn. destruct (has_lists k); reflexivity.
 Qed.
 
+(** Tokens without ledger effect / an area allocation / the host storing items. *)
+Lemma rbase_inert k r r2 items held area ts :
+  RBase k r items held area -> (forall g, lg_toks_r k ts g = g) ->
+  r_taken r2 = r_taken r -> r_log r2 = r_log r -> r_inbuf r2 = r_inbuf r ->
+  r_got r2 = r_got r -> r_dropped r2 = r_dropped r -> r_rep r2 = r_rep r ->
+  r_lg r2 = lg_toks_r k ts (r_lg r) ->
+  RBase k r2 items held area.
+Proof.
+  intros (HL & HP & HR & HG) Hi E1 E2 E3 E4 E5 E6 E7.
+  unfold RBase. rewrite E1, E2, E3, E4, E5, E6, E7, Hi. auto.
+Qed.
+
+Lemma rbase_area k r items held (area : bool) :
+  RBase k r items held false -> RBase k (remit k (if area then [KAreaNew] else []) r) items held area.
+Proof.
+  intros (HL & HP & HR & HG). unfold RBase.
+  change (r_log (remit k (if area then [KAreaNew] else []) r)) with (r_log r).
+  change (r_inbuf (remit k (if area then [KAreaNew] else []) r)) with (r_inbuf r).
+  change (r_taken (remit k (if area then [KAreaNew] else []) r)) with (r_taken r).
+  change (r_got (remit k (if area then [KAreaNew] else []) r)) with (r_got r).
+  change (r_dropped (remit k (if area then [KAreaNew] else []) r)) with (r_dropped r).
+  change (r_rep (remit k (if area then [KAreaNew] else []) r)) with (r_rep r).
+  change (r_lg (remit k (if area then [KAreaNew] else []) r))
+    with (lg_toks_r k (if area then [KAreaNew] else []) (r_lg r)).
+  split; [exact HL|]. split; [exact HP|]. split; [exact HR|].
+  rewrite HG. destruct area; reflexivity.
+Qed.
+
+Lemma rbase_move k r r5 items held (area : bool) mv t :
+  RBase k r items held area -> r_inbuf r = [] ->
+  match t with KTr _ | KLiftR _ | KAreaNew | KAreaFree => False | _ => True end ->
+  r_taken r5 = r_taken r ++ mv -> r_log r5 = r_log r -> r_inbuf r5 = mv ->
+  r_got r5 = r_got r -> r_dropped r5 = r_dropped r -> r_rep r5 = r_rep r ->
+  r_lg r5 = lg_toks_r k (tr mv ++ [t]) (r_lg r) ->
+  RBase k r5 items held area.
+Proof.
+  intros (HL & HP & HR & HG) Hin Ht E1 E2 E3 E4 E5 E6 E7.
+  unfold RBase. rewrite E1, E2, E3, E4, E5, E6, E7.
+  split; [rewrite Hin, app_nil_r in HL; rewrite HL; reflexivity|].
+  split; [exact HP|]. split; [exact HR|].
+  rewrite HG, Hin. apply ledger_tr. exact Ht.
+Qed.
+
+Lemma rbase_swap k r o h o' h' area :
+  RBase k r o h area -> Permutation (o ++ h) (o' ++ h') -> RBase k r o' h' area.
+Proof.
+  intros (HL & HP & HR & HG) Hp. split; [exact HL|]. split; [|split; assumption].
+  eapply Permutation_trans; [exact HP|]. do 2 apply Permutation_app_head. exact Hp.
+Qed.
+
+Lemma rgrow_same r0 avail r r' : rgrow r0 avail r -> r_taken r' = r_taken r -> rgrow r0 avail r'.
+Proof. intros (d & rest & E1 & E2) E. exists d, rest. split; [congruence|exact E2]. Qed.
+
 Lemma rop_poll_spec k o r0 avail r r' p held :
   RCore k r (RCOp o) held -> rgrow r0 avail r ->
   rop_poll true k (length (r_taken r0)) avail o r = Ok (r', p) ->
@@ -232,7 +287,7 @@ Proof.
     + destruct Hc as (Hb & He & Hg).
       eapply rop_with_code_spec in H.
       * destruct H as (A & B & C & D & E). split; [exact A|]. split; [exact B|]. split; [exact C|].
-        split; [|exact E]. destruct Hgr as (d & rest & E1 & E2). exists d, rest. split; [congruence|exact E2].
+        split; [|exact E]. eapply rgrow_same; eassumption.
       * split; [exact HB|]. split; [exact He|]. right. split; assumption.
     + injection H as <- <-. do 3 (split; [reflexivity|]). split; [exact Hgr|].
       split; [|exact Ei]. split; [exact HB|]. cbn [rcoh]. rewrite Ei, Ec. exact Hc.
@@ -240,7 +295,7 @@ Proof.
     destruct (r_done r).
     + eapply rop_with_code_spec in H.
       * destruct H as (A & B & C & D & E). split; [exact A|]. split; [exact B|]. split; [exact C|].
-        split; [|exact E]. destruct Hgr as (d & rest & E1 & E2). exists d, rest. split; [congruence|exact E2].
+        split; [|exact E]. eapply rgrow_same; eassumption.
       * split; [exact HB|]. split; [exact He|]. right. split; [exact Hb|]. rewrite Hin. exact good_dropped0.
     + set (cap := v_spare (ro_vec o)) in *.
       set (area := lifted k && negb (cap =? 0)%nat) in *.
@@ -252,22 +307,599 @@ Proof.
       assert (Hmv : mv = firstn (length mv) (firstn cap (r_avail (length (r_taken r0)) avail r))).
       { destruct Eh as [[_ ->]|(_ & E & _)]; [reflexivity|exact E]. }
       eapply rop_with_code_spec in H.
-      * destruct H as (A & B & C & D & E). subst r1. rsimp.
+      * destruct H as (A & B & C & D & E).
         split; [exact A|]. split; [exact B|]. split; [exact C|]. split; [|exact E].
         eapply rgrow_move; [exact Hgr|exact Hmv|exact D].
-      * destruct HB as (HL & HP & HR & HG). subst r1. unfold rpre, RBase. rsimp.
-        split.
-        { split; [rewrite Hin in HL; rewrite app_nil_r in HL; rewrite HL; reflexivity|].
-          split; [exact HP|]. split; [exact HR|].
-          rewrite HG, Hin. rewrite lg_toks_r_app.
-          assert (E1 : lg_toks_r k (if area then [KAreaNew] else [])
-                         (mkLg (if has_lists k then [] else []) (if false then 1 else 0)%nat false)
-                       = mkLg (if has_lists k then [] else []) (if area then 1 else 0)%nat false)
-            by (destruct area; reflexivity).
-          rewrite E1. apply ledger_tr. exact I. }
+      * split.
+        { eapply (rbase_move k r1 _ _ _ area mv); [apply rbase_area; exact HB|exact Hin| | | | | | | | ]; try reflexivity. exact I. }
         split; [reflexivity|].
         destruct Eh as [[-> ->]|(Hg & _ & _)].
-        { left. cbn. auto. }
-        { right. destruct Hg as [Hnb Hr]. destruct (N.eqb_spec a BLOCKED); [contradiction|].
-          split; [reflexivity|]. split; assumption. }
+        { left. split; [reflexivity|]. split; reflexivity. }
+        { right. destruct Hg as [Hnb Hr]. split.
+          - change (r_busy (rset_host (if N.eqb a BLOCKED then Some cap else None) mv None
+                              (radd_taken mv (remit k (tr mv ++ [KRead (min_len cap) a]) (rset_ans l r1)))))
+              with (if N.eqb a BLOCKED then Some cap else @None nat).
+            destruct (N.eqb_spec a BLOCKED); [contradiction|reflexivity].
+          - split; assumption. }
+Qed.
+
+Lemma rop_cancel_spec k o r0 avail r r' s v' held :
+  RCore k r (RCOp o) held -> rgrow r0 avail r ->
+  rop_cancel true k (length (r_taken r0)) avail o r = Ok (r', s, v') ->
+  r_vec r' = r_vec r /\ r_fut r' = r_fut r /\ r_ad r' = r_ad r /\ rgrow r0 avail r' /\ RDone k r' v' held.
+Proof.
+  intros (HB & Hc) Hgr H. unfold rop_cancel in H. cbn [rcoh rc_items rc_area] in *.
+  destruct (ro_inprog o) eqn:Ei; cbn [negb] in H.
+  2:{ injection H as <- <- <-. do 3 (split; [reflexivity|]). split; [exact Hgr|].
+      destruct Hc as (Hq & Hcode & Harea). rewrite Harea in HB. split; [exact HB|exact Hq]. }
+  destruct (ro_code o) as [c|] eqn:Ec.
+  - destruct Hc as (Hb & He & Hg).
+    destruct (rop_with_code k (ro_vec o) (ro_area o) c r) as [[r3 [o3|s3 v3]]| |] eqn:E; try discriminate.
+    injection H as <- <- <-.
+    eapply rop_with_code_spec in E.
+    + destruct E as (A & B & C & D & F). split; [exact A|]. split; [exact B|]. split; [exact C|].
+      split; [|exact F]. eapply rgrow_same; eassumption.
+    + split; [exact HB|]. split; [exact He|]. right. split; assumption.
+  - destruct Hc as (Hb & Hev). rewrite Hb in H.
+    destruct (r_ev r) as [c|] eqn:Ee.
+    + match type of H with context [rop_with_code ?k ?v ?ar ?c ?r2] =>
+        destruct (rop_with_code k v ar c r2) as [[r3 [o3|s3 v3]]| |] eqn:E; try discriminate end.
+      injection H as <- <- <-.
+      eapply rop_with_code_spec in E.
+      * destruct E as (A & B & C & D & F). split; [exact A|]. split; [exact B|]. split; [exact C|].
+        split; [|exact F]. eapply rgrow_same; [exact Hgr|exact D].
+      * split.
+        { eapply (rbase_inert k r _ _ _ _ [KCancelR c]); [exact HB|intros g; reflexivity| | | | | | | ]; reflexivity. }
+        split; [reflexivity|]. right. split; [reflexivity|exact Hev].
+    + set (aw := match r_ans r with [] => (CANCELLED, r) | a :: t => (a, rset_ans t r) end) in H.
+      assert (Haw : exists l, snd aw = rset_ans l r).
+      { unfold aw. destruct (r_ans r) eqn:El; cbn [snd]; [exists (r_ans r); apply rset_ans_eta|eexists; reflexivity]. }
+      destruct aw as [a r1]. cbn [snd] in Haw. destruct Haw as [l ->].
+      cbn [andb] in H. destruct (N.eqb_spec a BLOCKED) as [|Hnb]; [discriminate|].
+      match type of H with context [host_moves true true ?cap ?av a] =>
+        destruct (host_moves true true cap av a) as [mv|] eqn:Eh; [|discriminate] end.
+      apply host_moves_strict in Eh. destruct Eh as [[-> _]|(Hg & Hmv & Hlen)]; [contradiction|].
+      match type of H with context [rop_with_code ?k ?v ?ar ?c ?r2] =>
+        destruct (rop_with_code k v ar c r2) as [[r3 [o3|s3 v3]]| |] eqn:E; try discriminate end.
+      injection H as <- <- <-.
+      eapply rop_with_code_spec in E.
+      * destruct E as (A & B & C & D & F). split; [exact A|]. split; [exact B|]. split; [exact C|].
+        split; [|exact F]. eapply rgrow_move; [exact Hgr|exact Hmv|exact D].
+      * split.
+        { eapply (rbase_move k r _ _ _ _ mv); [exact HB|exact Hev| | | | | | | | ]; try reflexivity. exact I. }
+        split; [reflexivity|]. right. split; [reflexivity|exact Hg].
+Qed.
+
+(** ** Disposing of a resolved read *)
+Lemma drop_vals_inert_r k v g : lg_toks_r k (drop_vals k v) g = g.
+Proof.
+  apply lg_r_inert. intros t Ht. unfold drop_vals in Ht. destruct (lifted k); [|contradiction].
+  apply in_map_iff in Ht. destruct Ht as (x & <- & _). exact I.
+Qed.
+
+Lemma perm_drop_items {A} (g d o h : list A) :
+  Permutation (g ++ d ++ o ++ h) (g ++ (d ++ o) ++ [] ++ h).
+Proof. cbn. rewrite <- app_assoc. reflexivity. Qed.
+
+Lemma perm_next {A} (g d a h : list A) (y : A) :
+  Permutation (g ++ d ++ (a ++ [y]) ++ h) ((g ++ [y]) ++ (d ++ a) ++ [] ++ h).
+Proof.
+  cbn [app]. rewrite <- !app_assoc. apply Permutation_app_head.
+  rewrite (app_assoc d a). rewrite (app_assoc d a). apply Permutation_app_swap_app.
+Qed.
+
+Lemma r_drop_vec_spec k v r held :
+  RDone k r v held -> RCore k (r_drop_vec k v r) RCNone held.
+Proof.
+  intros ((HL & HP & HR & HG) & Hq). split; [|exact Hq].
+  unfold RBase, r_drop_vec.
+  change (r_lg (radd_dropped (v_items v) (remit k (drop_vals k (v_items v)) r)))
+    with (lg_toks_r k (drop_vals k (v_items v)) (r_lg r)).
+  rewrite drop_vals_inert_r.
+  split; [exact HL|]. split; [|split; [exact HR|exact HG]].
+  eapply Permutation_trans; [exact HP|]. apply perm_drop_items.
+Qed.
+
+Lemma rdone_none k r held : RDone k r (mkV [] 0) held <-> RCore k r RCNone held.
+Proof. split; intros H; exact H. Qed.
+
+Lemma next_done_spec k v r r' x held :
+  RDone k r v held -> next_done k v r = (r', x) ->
+  RCore k r' RCNone held /\ r_vec r' = r_vec r /\ r_fut r' = r_fut r /\ r_ad r' = r_ad r /\ r_taken r' = r_taken r.
+Proof.
+  intros HD H. unfold next_done in H. destruct (rev (v_items v)) as [|y rest] eqn:Er.
+  - injection H as <- <-. split; [|auto]. destruct HD as (HB & Hq). split; [|exact Hq].
+    assert (v_items v = []) by (rewrite <- (rev_involutive (v_items v)), Er; reflexivity).
+    rewrite H in HB. exact HB.
+  - injection H as <- <-. split; [|auto].
+    assert (Hv : v_items v = rev rest ++ [y]) by (rewrite <- (rev_involutive (v_items v)), Er; reflexivity).
+    destruct HD as ((HL & HP & HR & HG) & Hq). split; [|exact Hq].
+    unfold RBase, r_drop_vec.
+    change (r_lg (radd_got [y] (radd_dropped (v_items (mkV (rev rest) (v_cap v)))
+                  (remit k (drop_vals k (v_items (mkV (rev rest) (v_cap v)))) r))))
+      with (lg_toks_r k (drop_vals k (rev rest)) (r_lg r)).
+    rewrite drop_vals_inert_r.
+    split; [exact HL|]. split; [|split; [exact HR|exact HG]].
+    eapply Permutation_trans; [exact HP|]. rewrite Hv. cbn [rc_items v_items app].
+    change (r_got (radd_got [y] (radd_dropped (rev rest) (remit k (drop_vals k (rev rest)) r))))
+      with (r_got r ++ [y]).
+    change (r_dropped (radd_got [y] (radd_dropped (rev rest) (remit k (drop_vals k (rev rest)) r))))
+      with (r_dropped r ++ rev rest).
+    apply perm_next.
+Qed.
+
+Lemma rcore_inert k r c held ts :
+  (forall g, lg_toks_r k ts g = g) -> RCore k r c held -> RCore k (remit k ts r) c held.
+Proof.
+  intros Hi (HB & Hc). split.
+  - eapply (rbase_inert k r _ _ _ _ ts); [exact HB|exact Hi| | | | | | | ]; reflexivity.
+  - destruct c; exact Hc.
+Qed.
+
+Lemma rcore_drop_end k r c held : RCore k r c held -> RCore k (r_drop_end k r) c held.
+Proof.
+  intros H. unfold r_drop_end. apply rcore_inert; [intros g; reflexivity|].
+  destruct H as (HB & Hc). split; [exact HB|destruct c; exact Hc].
+Qed.
+
+Lemma rdone_op k r v held :
+  RDone k r v held -> forall v', v_items v' = v_items v -> RCore k r (RCOp (mkRop false v' false None)) held.
+Proof.
+  intros (HB & Hq) v' E. split.
+  - cbn [rc_items rc_area ro_vec ro_area]. rewrite E. exact HB.
+  - cbn. auto.
+Qed.
+
+Lemma v_reserve1_items k v : v_items (v_reserve1 k v) = v_items v.
+Proof. unfold v_reserve1. destruct (Nat.eqb _ _); reflexivity. Qed.
+
+Lemma perm_got {A} (g d o h : list A) :
+  Permutation (g ++ d ++ o ++ h) ((g ++ o) ++ d ++ [] ++ h).
+Proof.
+  cbn [app]. rewrite <- app_assoc. apply Permutation_app_head.
+  rewrite (app_assoc d o). rewrite (app_assoc o d). apply Permutation_app_tail. apply Permutation_app_comm.
+Qed.
+
+(** ** [collect]'s loop *)
+Lemma coll_loop_spec k fuel : forall r0 avail s v r r' f held,
+  RDone k r v held -> rgrow r0 avail r ->
+  coll_loop fuel true k (length (r_taken r0)) avail s v r = Ok (r', f) ->
+  r_vec r' = r_vec r /\ r_ad r' = r_ad r /\ rgrow r0 avail r' /\
+  match f with
+  | Some (RFColl o) => RCore k r' (RCOp o) held
+  | None => RCore k r' RCNone held
+  | _ => False
+  end.
+Proof.
+  induction fuel as [|fuel IH]; intros r0 avail s v r r' f held HD Hgr H; cbn [coll_loop] in H.
+  - destruct s; try discriminate. injection H as <- <-.
+    do 2 (split; [reflexivity|]). split; [eapply rgrow_same; [exact Hgr|reflexivity]|].
+    destruct HD as ((HL & HP & HR & HG) & Hq). split; [|exact Hq].
+    split; [exact HL|]. split; [|split; [exact HR|exact HG]].
+    eapply Permutation_trans; [exact HP|]. apply perm_got.
+  - destruct s; try discriminate.
+    + destruct (rop_poll true k (length (r_taken r0)) avail
+                  (mkRop false (v_reserve1 k v) false None) r) as [[r1 [o1|s1 v1]]| |] eqn:Ep; try discriminate.
+      * injection H as <- <-. eapply rop_poll_spec in Ep; [|eapply rdone_op; [exact HD|apply v_reserve1_items]|exact Hgr].
+        destruct Ep as (A & B & C & D & E & _). auto.
+      * eapply rop_poll_spec in Ep; [|eapply rdone_op; [exact HD|apply v_reserve1_items]|exact Hgr].
+        destruct Ep as (A & B & C & D & E).
+        eapply IH in H; [|exact E|exact D]. destruct H as (H1 & H2 & H3 & H4).
+        split; [congruence|]. split; [congruence|]. split; [exact H3|exact H4].
+    + injection H as <- <-.
+      do 2 (split; [reflexivity|]). split; [eapply rgrow_same; [exact Hgr|reflexivity]|].
+      destruct HD as ((HL & HP & HR & HG) & Hq). split; [|exact Hq].
+      split; [exact HL|]. split; [|split; [exact HR|exact HG]].
+      eapply Permutation_trans; [exact HP|]. apply perm_got.
+Qed.
+
+(** ** Every reader action preserves the invariant *)
+Definition RInv' (k : kind) (r : rst) : Prop :=
+  RInv k r /\ (r_fut r <> None -> r_ad r = None) /\ (forall o, r_fut r = Some (RFOp o) -> r_vec r = None).
+
+Definition rgrows (r : rst) (avail : list N) (r' : rst) : Prop :=
+  exists d rest, r_taken r' = r_taken r ++ d /\ avail = d ++ rest.
+
+Lemma rcore_fresh_op k r held cap :
+  RCore k r RCNone held -> RCore k r (RCOp (mkRop false (mkV [] cap) false None)) held.
+Proof. intros (HB & Hq). split; [exact HB|]. cbn. auto. Qed.
+
+Lemma rdone_held k r v :
+  RDone k r v [] -> RCore k r RCNone (v_items v).
+Proof.
+  intros (HB & Hq). split; [|exact Hq]. eapply rbase_swap; [exact HB|].
+  cbn [rc_items app]. rewrite app_nil_r. reflexivity.
+Qed.
+
+Lemma r_poll_spec k avail r r' :
+  RInv' k r -> r_poll true k avail r = Ok r' -> RInv' k r' /\ rgrows r avail r'.
+Proof.
+  intros (HI & Hex & Hvec) H. unfold r_poll in H. unfold RInv, rcfg_of, r_cur_op in HI.
+  pose proof (rgrow_refl r avail) as Hg0.
+  destruct (r_fut r) as [[o| |o| |o]|] eqn:Ef; [| | | | |discriminate];
+    assert (Had : r_ad r = None) by (apply Hex; discriminate); cbn [rfut_op] in HI; cbn [lift_res] in H.
+  - (* StreamRead *)
+    assert (Hv : r_vec r = None) by (eapply Hvec; reflexivity).
+    assert (Hh : held_of r = []) by (unfold held_of; rewrite Hv; reflexivity). rewrite Hh in HI.
+    destruct (rop_poll true k (length (r_taken r)) avail o r) as [[r1 [o1|s1 v1]]| |] eqn:Ep; try discriminate;
+      cbn [lift_res] in H; injection H as <-;
+      eapply rop_poll_spec in Ep; try exact HI; try exact Hg0; destruct Ep as (A & B & C & D & E).
+    + split; [|exact D]. split; [|split].
+      * unfold RInv, rcfg_of, r_cur_op, held_of. cbn. rewrite A, Hv. exact (proj1 E).
+      * intros _. cbn. congruence.
+      * intros o' _. cbn. congruence.
+    + split; [|exact D]. split; [|split].
+      * unfold RInv, rcfg_of, r_cur_op, held_of. cbn. rewrite C, Had.
+        apply rcore_inert; [intros g; reflexivity|]. apply rdone_held in E.
+        destruct E as (HB & Hq). split; [exact HB|exact Hq].
+      * intros Hn. exfalso. apply Hn. reflexivity.
+      * intros o' Hn. discriminate Hn.
+  - (* next, first poll *)
+    try rewrite Had in HI.
+    destruct (rop_poll true k (length (r_taken r)) avail (mkRop false (mkV [] 1) false None) r)
+      as [[r1 [o1|s1 v1]]| |] eqn:Ep; try discriminate; cbn [lift_res] in H;
+      eapply rop_poll_spec in Ep; try (apply rcore_fresh_op; exact HI); try exact Hg0;
+      destruct Ep as (A & B & C & D & E).
+    + injection H as <-. split; [|exact D]. split; [|split].
+      * unfold RInv, rcfg_of, r_cur_op, held_of. cbn. rewrite A. exact (proj1 E).
+      * intros _. cbn. congruence.
+      * intros o' Hn. discriminate Hn.
+    + destruct (next_done k v1 r1) as [r2 x] eqn:En. injection H as <-.
+      eapply next_done_spec in En; [|exact E]. destruct En as (F & G1 & G2 & G3 & G4).
+      split; [|eapply rgrow_same; [exact D|exact G4]]. split; [|split].
+      * unfold RInv, rcfg_of, r_cur_op, held_of. cbn. rewrite G3, C, Had, G1, A.
+        apply rcore_inert; [intros g; reflexivity|]. destruct F as (HB & Hq). split; [exact HB|exact Hq].
+      * intros Hn. exfalso. apply Hn. reflexivity.
+      * intros o' Hn. discriminate Hn.
+  - (* next, resumed *)
+    destruct (rop_poll true k (length (r_taken r)) avail o r) as [[r1 [o1|s1 v1]]| |] eqn:Ep; try discriminate;
+      cbn [lift_res] in H;
+      eapply rop_poll_spec in Ep; try exact HI; try exact Hg0; destruct Ep as (A & B & C & D & E).
+    + injection H as <-. split; [|exact D]. split; [|split].
+      * unfold RInv, rcfg_of, r_cur_op, held_of. cbn. rewrite A. exact (proj1 E).
+      * intros _. cbn. congruence.
+      * intros o' Hn. discriminate Hn.
+    + destruct (next_done k v1 r1) as [r2 x] eqn:En. injection H as <-.
+      eapply next_done_spec in En; [|exact E]. destruct En as (F & G1 & G2 & G3 & G4).
+      split; [|eapply rgrow_same; [exact D|exact G4]]. split; [|split].
+      * unfold RInv, rcfg_of, r_cur_op, held_of. cbn. rewrite G3, C, Had, G1, A.
+        apply rcore_inert; [intros g; reflexivity|]. destruct F as (HB & Hq). split; [exact HB|exact Hq].
+      * intros Hn. exfalso. apply Hn. reflexivity.
+      * intros o' Hn. discriminate Hn.
+  - (* collect, first poll *)
+    try rewrite Had in HI.
+    destruct (coll_loop (S (coll_fuel r)) true k (length (r_taken r)) avail (SComplete 0) (mkV [] 0) r)
+      as [[r1 f]| |] eqn:El; try discriminate. cbn [lift_res] in H. injection H as <-.
+    eapply coll_loop_spec in El; [|exact HI|exact Hg0]. destruct El as (A & C & D & E).
+    split; [|exact D]. split; [|split].
+    + unfold RInv, rcfg_of, r_cur_op, held_of. cbn. rewrite A.
+      destruct f as [[| | | |]|]; try contradiction; cbn [rfut_op]; [exact E|rewrite C, Had; exact E].
+    + intros _. cbn. congruence.
+    + intros o' Hn. cbn in Hn. destruct f as [[| | | |]|]; try contradiction; discriminate Hn.
+  - (* collect, resumed *)
+    destruct (rop_poll true k (length (r_taken r)) avail o r) as [[r1 [o1|s1 v1]]| |] eqn:Ep; try discriminate;
+      cbn [lift_res] in H;
+      eapply rop_poll_spec in Ep; try exact HI; try exact Hg0; destruct Ep as (A & B & C & D & E).
+    + injection H as <-. split; [|exact D]. split; [|split].
+      * unfold RInv, rcfg_of, r_cur_op, held_of. cbn. rewrite A. exact (proj1 E).
+      * intros _. cbn. congruence.
+      * intros o' Hn. discriminate Hn.
+    + destruct (coll_loop (coll_fuel r1) true k (length (r_taken r)) avail s1 v1 r1) as [[r2 f]| |] eqn:El;
+        try discriminate. cbn [lift_res] in H. injection H as <-.
+      eapply coll_loop_spec in El; [|exact E|exact D]. destruct El as (A' & C' & D' & E').
+      split; [|exact D']. split; [|split].
+      * unfold RInv, rcfg_of, r_cur_op, held_of. cbn. rewrite A', A.
+        destruct f as [[| | | |]|]; try contradiction; cbn [rfut_op]; [exact E'|rewrite C', C, Had; exact E'].
+      * intros _. cbn. congruence.
+      * intros o' Hn. cbn in Hn. destruct f as [[| | | |]|]; try contradiction; discriminate Hn.
+Qed.
+
+Lemma ad_poll_spec k avail r r' :
+  RInv' k r -> r_fut r = None -> ad_poll true k avail r = Ok r' -> RInv' k r' /\ rgrows r avail r'.
+Proof.
+  intros (HI & Hex & Hvec) Hf H. unfold ad_poll in H. unfold RInv, rcfg_of, r_cur_op in HI. rewrite Hf in HI.
+  pose proof (rgrow_refl r avail) as Hg0.
+  assert (Hrun : forall o, RCore k r (RCOp o) (held_of r) ->
+            lift_res (rop_poll true k (length (r_taken r)) avail o r)
+              (fun '(r, p) =>
+                 match p with
+                 | RPending o => Ok (rset_ad (Some (AdReading o)) r)
+                 | RReady _ v =>
+                     let (r, x) := next_done k v r in
+                     match x with
+                     | Some _ => Ok (remit k [KSn x] (rset_ad (Some AdIdle) r))
+                     | None => Ok (remit k [KSn None] (r_drop_end k (rset_ad (Some AdComplete) r)))
+                     end
+                 end) = Ok r' -> RInv' k r' /\ rgrows r avail r').
+  { intros o HC H1.
+    destruct (rop_poll true k (length (r_taken r)) avail o r) as [[r1 [o1|s1 v1]]| |] eqn:Ep; try discriminate;
+      cbn [lift_res] in H1;
+      eapply rop_poll_spec in Ep; try exact HC; try exact Hg0; destruct Ep as (A & B & C & D & E).
+    - injection H1 as <-. split; [|exact D]. split; [|split].
+      + unfold RInv, rcfg_of, r_cur_op, held_of. cbn. rewrite B, Hf, A. exact (proj1 E).
+      + intros Hn. exfalso. apply Hn. cbn. congruence.
+      + intros o' Hn. cbn in Hn. congruence.
+    - destruct (next_done k v1 r1) as [r2 x] eqn:En.
+      eapply next_done_spec in En; [|exact E]. destruct En as (F & G1 & G2 & G3 & G4).
+      destruct x as [x|]; injection H1 as <-.
+      + split; [|eapply rgrow_same; [exact D|exact G4]]. split; [|split].
+        * unfold RInv, rcfg_of, r_cur_op, held_of. cbn. rewrite G2, B, Hf, G1, A.
+          apply rcore_inert; [intros g; reflexivity|]. destruct F as (HB & Hq). split; [exact HB|exact Hq].
+        * intros Hn. exfalso. apply Hn. cbn. congruence.
+        * intros o' Hn. cbn in Hn. congruence.
+      + split; [|eapply rgrow_same; [exact D|exact G4]]. split; [|split].
+        * unfold RInv, rcfg_of, r_cur_op, held_of. cbn. rewrite G2, B, Hf, G1, A.
+          apply rcore_inert; [intros g; reflexivity|]. apply rcore_inert; [intros g; reflexivity|].
+          destruct F as (HB & Hq). split; [exact HB|exact Hq].
+        * intros Hn. exfalso. apply Hn. cbn. congruence.
+        * intros o' Hn. cbn in Hn. congruence. }
+  destruct (r_ad r) as [[|o| |]|] eqn:Ea; try discriminate.
+  - apply (Hrun (mkRop false (mkV [] 1) false None)); [|exact H]. apply rcore_fresh_op. exact HI.
+  - apply (Hrun o); [|exact H]. exact HI.
+  - injection H as <-. split; [|eapply rgrow_same; [apply rgrow_refl|reflexivity]]. split; [|split].
+    + unfold RInv, rcfg_of, r_cur_op, held_of. cbn. rewrite Hf, Ea.
+      apply rcore_inert; [intros g; reflexivity|]. exact HI.
+    + intros Hn. exfalso. apply Hn. exact Hf.
+    + intros o' Hn. cbn in Hn. congruence.
+Qed.
+
+Lemma rinv_init k : RInv' k r_init.
+Proof.
+  split; [|split; [intros _; reflexivity|intros o Hn; discriminate Hn]].
+  split; [|cbn; unfold rquiet; auto].
+  split; [reflexivity|]. split; [constructor|]. split; [constructor|]. destruct k; reflexivity.
+Qed.
+
+Lemma is_some_false' {A} (o : option A) : is_some o = false -> o = None.
+Proof. destruct o; [discriminate|reflexivity]. Qed.
+
+Lemma r_cur_put o o' r : r_cur_op r = Some o -> r_cur_op (r_put_op o' r) = Some o'.
+Proof.
+  unfold r_cur_op, r_put_op. destruct (r_fut r) as [f|] eqn:Ef.
+  - intros H. cbn. destruct f; cbn in *; congruence.
+  - destruct (r_ad r) as [[|o1| |]|] eqn:Ea; try discriminate. intros _. cbn. rewrite Ef. reflexivity.
+Qed.
+
+Lemma perm_take {A} (g d o h : list A) :
+  Permutation (g ++ d ++ o ++ h) ((g ++ h) ++ d ++ o ++ []).
+Proof.
+  rewrite app_nil_r. rewrite <- app_assoc. apply Permutation_app_head.
+  rewrite (app_assoc d o h). apply Permutation_app_comm.
+Qed.
+
+Theorem rstep_inv k avail a r r' :
+  RInv' k r -> rstep true k avail a r = Ok r' -> RInv' k r' /\ rgrows r avail r'.
+Proof.
+  intros HI H. unfold rstep in H.
+  assert (HI0 : RInv' k (rclear r)) by exact HI. clear HI.
+  change (RInv' k r' /\ rgrows (rclear r) avail r').
+  set (r0 := rclear r) in *. clearbody r0. clear r.
+  assert (Hgs : forall r2, rgrows r0 avail r2 -> rgrows r0 avail r2) by auto.
+  assert (Hsame : forall r2, r_taken r2 = r_taken r0 -> rgrows r0 avail r2).
+  { intros r2 E. eapply rgrow_same; [apply rgrow_refl|exact E]. }
+  destruct a.
+  - (* read cap *)
+    destruct HI0 as (HC & Hex & Hvec). unfold RInv, rcfg_of, r_cur_op in HC.
+    destruct (r_alive r0); [|discriminate]. cbn [andb] in H.
+    destruct (is_some (r_ad r0)) eqn:E1; [discriminate|]. destruct (is_some (r_fut r0)) eqn:E2; [discriminate|].
+    apply is_some_false' in E1. apply is_some_false' in E2. rewrite E1, E2 in HC. cbn [negb andb] in H.
+    injection H as <-. split; [|apply Hgs, Hsame; reflexivity]. split; [|split].
+    + unfold RInv, rcfg_of, r_cur_op, held_of. cbn. destruct HC as (HB & Hq). split; [|cbn; auto].
+      eapply rbase_swap; [exact HB|]. unfold held_of. cbn. rewrite app_nil_r. destruct (r_vec r0); reflexivity.
+    + intros _. exact E1.
+    + intros o _. reflexivity.
+  - (* next *)
+    destruct HI0 as (HC & Hex & Hvec). unfold RInv, rcfg_of, r_cur_op in HC.
+    destruct (r_alive r0); [|discriminate]. cbn [andb] in H.
+    destruct (is_some (r_ad r0)) eqn:E1; [discriminate|]. destruct (is_some (r_fut r0)) eqn:E2; [discriminate|].
+    apply is_some_false' in E1. apply is_some_false' in E2. rewrite E1, E2 in HC. cbn [negb andb] in H.
+    injection H as <-. split; [|apply Hgs, Hsame; reflexivity]. split; [|split].
+    + unfold RInv, rcfg_of, r_cur_op, held_of. cbn. exact HC.
+    + intros _. exact E1.
+    + intros o Hn. discriminate Hn.
+  - (* collect *)
+    destruct HI0 as (HC & Hex & Hvec). unfold RInv, rcfg_of, r_cur_op in HC.
+    destruct (r_alive r0); [|discriminate]. cbn [andb] in H.
+    destruct (is_some (r_ad r0)) eqn:E1; [discriminate|]. destruct (is_some (r_fut r0)) eqn:E2; [discriminate|].
+    apply is_some_false' in E1. apply is_some_false' in E2. rewrite E1, E2 in HC. cbn [negb andb] in H.
+    injection H as <-. split; [|apply Hgs, Hsame; reflexivity]. split; [|split].
+    + unfold RInv, rcfg_of, r_cur_op, held_of. cbn. exact HC.
+    + intros _. exact E1.
+    + intros o Hn. discriminate Hn.
+  - (* into_stream *)
+    destruct HI0 as (HC & Hex & Hvec). unfold RInv, rcfg_of, r_cur_op in HC.
+    destruct (r_alive r0); [|discriminate]. cbn [andb] in H.
+    destruct (is_some (r_ad r0)) eqn:E1; [discriminate|]. destruct (is_some (r_fut r0)) eqn:E2; [discriminate|].
+    apply is_some_false' in E1. apply is_some_false' in E2. rewrite E1, E2 in HC. cbn [negb andb] in H.
+    injection H as <-. split; [|apply Hgs, Hsame; reflexivity]. split; [|split].
+    + unfold RInv, rcfg_of, r_cur_op, held_of. cbn. rewrite E2. exact HC.
+    + intros Hn. exfalso. apply Hn. exact E2.
+    + intros o Hn. cbn in Hn. congruence.
+  - (* poll *)
+    assert (HI1 : RInv' k (rset_ans ans r0)) by exact HI0.
+    destruct (is_some (r_fut (rset_ans ans r0))) eqn:E1.
+    + apply r_poll_spec in H; [|exact HI1]. destruct H as [A B]. split; [exact A|apply Hgs; exact B].
+    + destruct (is_some (r_ad (rset_ans ans r0))); [|discriminate].
+      apply is_some_false' in E1.
+      apply ad_poll_spec in H; [|exact HI1|exact E1]. destruct H as [A B]. split; [exact A|apply Hgs; exact B].
+  - (* host event *)
+    destruct HI0 as (HC & Hex & Hvec). unfold RInv, rcfg_of in HC.
+    destruct (r_busy r0) as [cap|] eqn:Eb; [|discriminate]. destruct (r_ev r0) eqn:Ee; [discriminate|].
+    destruct (N.eqb_spec code BLOCKED) as [|Hnb]; [discriminate|].
+    destruct (host_moves true false cap (firstn cap avail) code) as [mv|] eqn:Eh; [|discriminate].
+    injection H as <-. apply host_moves_strict in Eh. destruct Eh as [[-> _]|(Hg & Hmv & Hlen)]; [contradiction|].
+    destruct (r_cur_op r0) as [o|] eqn:Eo.
+    2:{ destruct HC as (_ & Hq & _). congruence. }
+    destruct HC as (HB & Hc). cbn [rcoh] in Hc.
+    destruct (ro_inprog o) eqn:Ei; [|destruct Hc as ((? & _) & _); congruence].
+    destruct (ro_code o) eqn:Ec; [destruct Hc as (? & _); congruence|].
+    rewrite Ee, Eb in Hc. destruct Hc as ([= Hcap] & Hin).
+    split.
+    2:{ apply Hgs. exists mv, (skipn (length mv) avail). split; [reflexivity|].
+        rewrite Hmv at 1. rewrite firstn_firstn.
+        assert (length mv <= cap)%nat by (rewrite Hmv, firstn_length, firstn_length; lia).
+        replace (Nat.min (length mv) cap) with (length mv) by lia.
+        symmetry. apply firstn_skipn. }
+    split; [|split; [exact Hex|exact Hvec]].
+    unfold RInv, rcfg_of.
+    change (r_cur_op (rset_host (Some cap) mv (Some code) (radd_taken mv (remit k (tr mv) r0))))
+      with (r_cur_op r0).
+    rewrite Eo. split.
+    + unfold RBase.
+      destruct HB as (HL & HP & HR & HG).
+      change (r_lg (rset_host (Some cap) mv (Some code) (radd_taken mv (remit k (tr mv) r0))))
+        with (lg_toks_r k (tr mv) (r_lg r0)).
+      rewrite HG, Hin, ledger_tr0.
+      split; [cbn; rewrite Hin, app_nil_r in HL; rewrite HL; reflexivity|].
+      split; [exact HP|]. split; [exact HR|reflexivity].
+    + cbn [rcoh]. rewrite Ei, Ec. cbn. rewrite Hcap. split; [reflexivity|exact Hg].
+  - (* delivery *)
+    destruct HI0 as (HC & Hex & Hvec). unfold RInv, rcfg_of in HC.
+    destruct (r_ev r0) as [c|] eqn:Ee; [|discriminate].
+    destruct (r_cur_op r0) as [o|] eqn:Eo; [|discriminate]. injection H as <-.
+    destruct HC as (HB & Hc). cbn [rcoh] in Hc.
+    destruct (ro_inprog o) eqn:Ei; [|destruct Hc as ((_ & ? & _) & _); congruence].
+    destruct (ro_code o) eqn:Ec; [destruct Hc as (_ & ? & _); congruence|].
+    rewrite Ee in Hc. destruct Hc as (Hb & Hg).
+    set (r1 := rset_host None (r_inbuf r0) None r0).
+    assert (Eo1 : r_cur_op r1 = Some o) by exact Eo.
+    split.
+    2:{ apply Hgs, Hsame. unfold r_put_op. destruct (r_fut r1); [reflexivity|]. destruct (r_ad r1) as [[| | |]|]; reflexivity. }
+    split; [|split].
+    + unfold RInv, rcfg_of. rewrite (r_cur_put o _ r1 Eo1).
+      assert (Hcore : forall r2, r_taken r2 = r_taken r0 -> r_log r2 = r_log r0 -> r_inbuf r2 = r_inbuf r0 ->
+                r_got r2 = r_got r0 -> r_dropped r2 = r_dropped r0 -> r_rep r2 = r_rep r0 -> r_lg r2 = r_lg r0 ->
+                r_busy r2 = None -> r_ev r2 = None -> held_of r2 = held_of r0 ->
+                RCore k r2 (RCOp (mkRop true (ro_vec o) (ro_area o) (Some c))) (held_of r2)).
+      { intros r2 E1 E2 E3 E4 E5 E6 E7 E8 E9 E10. rewrite E10. split.
+        - eapply (rbase_inert k r0 r2 _ _ _ []); [exact HB|intros g; reflexivity| | | | | | | ]; assumption.
+        - cbn. rewrite E3. auto. }
+      unfold r_put_op. destruct (r_fut r1) eqn:Ef1.
+      * apply Hcore; reflexivity.
+      * destruct (r_ad r1) as [[|o1| |]|] eqn:Ea1; try (unfold r_cur_op in Eo1; rewrite Ef1, Ea1 in Eo1; discriminate).
+        apply Hcore; reflexivity.
+    + unfold r_put_op. destruct (r_fut r1) eqn:Ef1.
+      * intros _. cbn. apply Hex. change (r_fut r0) with (r_fut r1). congruence.
+      * destruct (r_ad r1) as [[|o1| |]|] eqn:Ea1; cbn; intros Hn; exfalso; apply Hn; exact Ef1.
+    + unfold r_put_op. destruct (r_fut r1) as [f|] eqn:Ef1.
+      * intros o' Hn. cbn in Hn. destruct f; cbn in Hn; try discriminate.
+        cbn. eapply Hvec. change (r_fut r0) with (r_fut r1). rewrite Ef1. reflexivity.
+      * destruct (r_ad r1) as [[|o1| |]|] eqn:Ea1; intros o' Hn; cbn in Hn; change (r_fut r0) with (r_fut r1) in Hn; congruence.
+  - (* cancel *)
+    destruct HI0 as (HC & Hex & Hvec). unfold RInv, rcfg_of, r_cur_op in HC.
+    destruct (r_fut r0) as [[o| |o| |o]|] eqn:Ef; try discriminate.
+    assert (Had : r_ad r0 = None) by (apply Hex; discriminate).
+    assert (Hv : r_vec r0 = None) by (eapply Hvec; reflexivity).
+    assert (Hh : held_of r0 = []) by (unfold held_of; rewrite Hv; reflexivity). rewrite Hh in HC. cbn [rfut_op] in HC.
+    destruct (rop_cancel true k (length (r_taken r0)) avail o (rset_ans ans r0)) as [[[r1 s1] v1]| |] eqn:Ep;
+      try discriminate. cbn [lift_res] in H. injection H as <-.
+    change (length (r_taken r0)) with (length (r_taken (rset_ans ans r0))) in Ep.
+    eapply rop_cancel_spec in Ep; [|exact HC|apply rgrow_refl]. destruct Ep as (A & B & C & D & E).
+    split; [|apply Hgs; exact D]. split; [|split].
+    + unfold RInv, rcfg_of, r_cur_op, held_of. cbn. cbn in C. rewrite C, Had.
+      apply rcore_inert; [intros g; reflexivity|]. apply rdone_held in E.
+      destruct E as (HB & Hq). split; [exact HB|exact Hq].
+    + intros Hn. exfalso. apply Hn. reflexivity.
+    + intros o' Hn. discriminate Hn.
+  - (* drop the future / the adapter *)
+    assert (HI1 : RInv' k (rset_ans ans r0)) by exact HI0. clear HI0.
+    change (RInv' k r' /\ rgrows (rset_ans ans r0) avail r').
+    change (length (r_taken r0)) with (length (r_taken (rset_ans ans r0))) in H.
+    set (r1 := rset_ans ans r0) in *. clearbody r1. clear r0 Hgs Hsame.
+    destruct HI1 as (HC & Hex & Hvec). unfold RInv, rcfg_of, r_cur_op in HC.
+    (* cancel + drop of the vector, then any wrapper that keeps the core and clears the future/adapter *)
+    assert (Hcancel : forall o (fin : rst -> rst),
+              RCore k r1 (RCOp o) (held_of r1) ->
+              (forall r2, r_fut r2 = r_fut r1 ->
+                          r_taken (fin r2) = r_taken r2 /\ r_vec (fin r2) = r_vec r2 /\ r_fut (fin r2) = None) ->
+              (forall r2 held, RCore k r2 RCNone held -> RCore k (fin r2) RCNone held) ->
+              (forall r2, r_ad r2 = r_ad r1 -> r_ad (fin r2) = None \/ r_ad (fin r2) = Some AdGone) ->
+              lift_res (rop_cancel true k (length (r_taken r1)) avail o r1)
+                       (fun '(r, _, v) => Ok (fin (r_drop_vec k v r))) = Ok r' ->
+              RInv' k r' /\ rgrows r1 avail r').
+    { intros o fin HCo Hft Hfc Hfa H1.
+      destruct (rop_cancel true k (length (r_taken r1)) avail o r1) as [[[r2 s2] v2]| |] eqn:Ep; try discriminate.
+      cbn [lift_res] in H1. injection H1 as <-.
+      eapply rop_cancel_spec in Ep; [|exact HCo|apply rgrow_refl]. destruct Ep as (A & B & C & D & E).
+      destruct (Hft (r_drop_vec k v2 r2) B) as (F1 & F2 & F3).
+      assert (Hcur : r_cur_op (fin (r_drop_vec k v2 r2)) = None).
+      { unfold r_cur_op. rewrite F3. destruct (Hfa (r_drop_vec k v2 r2) C) as [-> | ->]; reflexivity. }
+      split.
+      - split; [|split].
+        + unfold RInv, rcfg_of, held_of. rewrite Hcur, F2.
+          apply Hfc. change (r_vec (r_drop_vec k v2 r2)) with (r_vec r2). rewrite A.
+          apply r_drop_vec_spec. exact E.
+        + intros Hn. exfalso. apply Hn. exact F3.
+        + intros o' Hn. congruence.
+      - eapply rgrow_same; [exact D|]. rewrite F1. reflexivity. }
+    assert (Hsame1 : forall r2, r_taken r2 = r_taken r1 -> rgrows r1 avail r2).
+    { intros r2 E. eapply rgrow_same; [apply rgrow_refl|exact E]. }
+    destruct (r_fut r1) as [[o| |o| |o]|] eqn:Ef; cbn [rfut_op] in HC.
+    + (* StreamRead *)
+      assert (Had : r_ad r1 = None) by (apply Hex; discriminate).
+      apply (Hcancel o (fun r => rset_fut None r)); [exact HC| | | |exact H].
+      * intros r2 _. auto.
+      * intros r2 held X. exact X.
+      * intros r2 E. left. cbn. congruence.
+    + (* next, never polled *)
+      assert (Had : r_ad r1 = None) by (apply Hex; discriminate).
+      injection H as <-. split; [|apply Hsame1; reflexivity]. split; [|split].
+      * unfold RInv, rcfg_of, r_cur_op, held_of. cbn. rewrite Had. exact HC.
+      * intros Hn. exfalso. apply Hn. reflexivity.
+      * intros o' Hn. discriminate Hn.
+    + (* next *)
+      assert (Had : r_ad r1 = None) by (apply Hex; discriminate).
+      apply (Hcancel o (fun r => rset_fut None r)); [exact HC| | | |exact H].
+      * intros r2 _. auto.
+      * intros r2 held X. exact X.
+      * intros r2 E. left. cbn. congruence.
+    + (* collect, never polled *)
+      assert (Had : r_ad r1 = None) by (apply Hex; discriminate).
+      injection H as <-. split; [|apply Hsame1; reflexivity]. split; [|split].
+      * unfold RInv, rcfg_of, r_cur_op, held_of. cbn. rewrite Had. apply rcore_drop_end. exact HC.
+      * intros Hn. exfalso. apply Hn. reflexivity.
+      * intros o' Hn. discriminate Hn.
+    + (* collect *)
+      assert (Had : r_ad r1 = None) by (apply Hex; discriminate).
+      apply (Hcancel o (fun r => r_drop_end k (rset_fut None r))); [exact HC| | | |exact H].
+      * intros r2 _. auto.
+      * intros r2 held X. apply rcore_drop_end. exact X.
+      * intros r2 E. left. cbn. congruence.
+    + (* the adapter *)
+      destruct (r_ad r1) as [[|o| |]|] eqn:Ea; try discriminate.
+      * injection H as <-. split; [|apply Hsame1; reflexivity]. split; [|split].
+        -- unfold RInv, rcfg_of, r_cur_op, held_of. cbn. rewrite Ef. apply rcore_drop_end. exact HC.
+        -- intros Hn. exfalso. apply Hn. exact Ef.
+        -- intros o' Hn. cbn in Hn. congruence.
+      * apply (Hcancel o (fun r => r_drop_end k (rset_ad (Some AdGone) r))); [exact HC| | | |exact H].
+        -- intros r2 E. split; [reflexivity|]. split; [reflexivity|]. cbn. congruence.
+        -- intros r2 held X. apply rcore_drop_end. exact X.
+        -- intros r2 E. right. reflexivity.
+      * injection H as <-. split; [|apply Hsame1; reflexivity]. split; [|split].
+        -- unfold RInv, rcfg_of, r_cur_op, held_of. cbn. rewrite Ef. exact HC.
+        -- intros Hn. exfalso. apply Hn. exact Ef.
+        -- intros o' Hn. cbn in Hn. congruence.
+  - (* take the vector *)
+    destruct HI0 as (HC & Hex & Hvec). unfold RInv in HC.
+    destruct (r_vec r0) as [v|] eqn:Ev; [|discriminate]. injection H as <-.
+    split; [|apply Hgs, Hsame; reflexivity]. split; [|split].
+    + unfold RInv.
+      change (rcfg_of (radd_got (v_items v) (remit k [KGot (v_items v)] (rset_vec None r0)))) with (rcfg_of r0).
+      change (held_of (radd_got (v_items v) (remit k [KGot (v_items v)] (rset_vec None r0)))) with (@nil N).
+      unfold held_of in HC. rewrite Ev in HC.
+      destruct HC as ((HL & HP & HR & HG) & Hc). split.
+      * split; [exact HL|]. split; [|split; [exact HR|exact HG]].
+        eapply Permutation_trans; [exact HP|]. apply perm_take.
+      * destruct (rcfg_of r0); exact Hc.
+    + exact Hex.
+    + intros o _. reflexivity.
+  - (* drop the reader *)
+    destruct HI0 as (HC & Hex & Hvec). unfold RInv, rcfg_of, r_cur_op in HC.
+    destruct (r_alive r0); [|discriminate]. cbn [andb] in H.
+    destruct (is_some (r_ad r0)) eqn:E1; [discriminate|]. destruct (is_some (r_fut r0)) eqn:E2; [discriminate|].
+    apply is_some_false' in E1. apply is_some_false' in E2. rewrite E1, E2 in HC. cbn [negb andb] in H.
+    injection H as <-. split; [|apply Hgs, Hsame; reflexivity]. split; [|split].
+    + unfold RInv, rcfg_of, r_cur_op, held_of. cbn. rewrite E1, E2. apply rcore_drop_end. exact HC.
+    + intros _. exact E1.
+    + intros o Hn. cbn in Hn. congruence.
 Qed.
